@@ -94,6 +94,16 @@ def projRow (nseq nsub : Nat) (F : Rat) (af : Nat) : List Rat :=
     (List.range (nsub + 1)).map fun j => lsum (tabs.map fun t => projAccum (inbFromSums t.1 nsub j) t.2)
   else (List.range (nsub + 1)).map (hypW nsub nseq af)
 
+/-- the Hardy–Weinberg mixture of individual-subsampling rows: what the F ≠ 0 branch of `projection_matrix` computes,
+    evaluated with the F = 0 partition probabilities (the limit of that branch as F → 0⁺, `C18_F_continuity_matrices_partial`) -/
+def projMix0 (nseq nsub af j : Nat) : Rat :=
+  lsum ((pw af (nseq / 2) 0).map fun gp => projAccum (projInb gp.1 nsub j) gp.2)
+
+/-- one row of it, combination sums shared (what the driver evaluates) -/
+def projMixRow0 (nseq nsub af : Nat) : List Rat :=
+  let tabs := (pw af (nseq / 2) 0).map fun gp => (combSums (nsub / 2) gp.1, gp.2)
+  (List.range (nsub + 1)).map fun j => lsum (tabs.map fun t => projAccum (inbFromSums t.1 nsub j) t.2)
+
 /-! ### coverage functionals -/
 
 def covAt (c : List Rat) (d : Nat) : Rat := c.getD d 0
